@@ -9,12 +9,23 @@ import (
 func TestProp(t *testing.T) {
 	r := evid.New(t, "C17", evid.Config{
 		Level: "exploration",
-		Rule:  "generated matcher sets / sample arrays / cursor call sequences; non-trivial: a Seek target strictly between two samples (cursor), >=2 series selected and >=1 rejected (selection)",
+		Rule: "generated matcher sets / metric and profile series tables / select-hint combinations / PromQL expressions / cursor call sequences; " +
+			"non-trivial: >=2 series selected and >=1 rejected (select-prom, select-prof; assembly additionally drops >=1 sample outside the range; " +
+			"e2e additionally compares >=1 non-boundary-sensitive point of a non-empty result), a Seek target strictly between two samples (cursor)",
 		Assumptions: []string{
+			"chsim executes the generated SQL the way ClickHouse does (match = unanchored RE2, bitShiftLeft keeps UInt8, ResultOfModulo typing, GROUP BY/argMax/intDiv semantics)",
+			"a stored series' fingerprint is a function of its label set (C04); label values are non-empty and valid UTF-8 without newlines",
+			"a matcher accepting the empty string on a series lacking the label is don't-care (qryn's index has no row for an absent label; consistent in all its planners)",
+			"profile selectors: only cases on which the anchored/unanchored and same-element/per-matcher readings agree are decided",
 			"series handed to the engine have strictly ascending timestamps (Select orders and groups rows by timestamp)",
 			"a Seek behind the current position may either stay or go back (engine never does it)",
+			"e2e: output points whose reference value changes when the look-back is perturbed by +-1 step are skipped; timestamp(), topk/bottomk, subqueries and @ are not generated",
 		},
 	})
 	addCursor(r)
+	addSelection(r)
+	addProfSelection(r)
+	addAssembly(r)
+	addE2E(r)
 	r.Main()
 }
